@@ -11,7 +11,19 @@
 //! * the inner `poll_read` of `B` consults `rscript` (`<k>` at most k bytes, `p` Pending, `e` Ok(0),
 //!   `x` Err(ConnectionReset); empty script: everything available, Pending if the inbox is empty,
 //!   Ok(0) if it is empty and the carrier was closed);
-//! * `tamper` edits complete, not yet (partially) delivered frames on the wire.
+//! * `tamper` edits complete, not yet (partially) delivered frames on the wire;
+//! * the inner `poll_flush` / `poll_close` of `A` consult `fscript` / `cscript` (`p` Pending, `x`
+//!   Err(BrokenPipe); empty script: Ready(Ok)). A successful inner `poll_close` closes the write half:
+//!   once the wire is drained the reader's carrier answers Ok(0) (bytes in flight are still delivered);
+//! * every `Pending` of the carrier registers the caller's waker; an outer `Pending` that comes without a
+//!   registered waker (nobody would ever poll the socket again) is reported as `pending nowake`.
+//!
+//! Teardown ops: `flush` and `close` call `poll_flush` / `poll_close` of `A` once. An `ok` is followed by
+//! what the carrier's frame bookkeeping says is missing: ` short <p>/<w>` if the complete frames on the
+//! wire cover only `p` of the `w` plaintext bytes accepted by `poll_write`, ` unflushed` if bytes were
+//! accepted by the inner `poll_write` after the last successful inner `poll_flush`, ` open` if `close`
+//! succeeded without a successful inner `poll_close`. After a successful `close` the writer answers
+//! `closed` without touching the socket.
 //!
 //! The plaintext written is a fixed function of the stream position, so a read reports the
 //! position of the bytes it returned instead of the bytes.
@@ -45,6 +57,12 @@ enum WAns {
     Acc(usize),
     Pend,
     Zero,
+    Err,
+}
+
+#[derive(Clone, Copy)]
+enum FAns {
+    Pend,
     Err,
 }
 
@@ -85,11 +103,25 @@ struct Shared {
     body_need: usize,
     next_pstart: usize,
     guard: Option<u8>,
+    /// answers of the inner `poll_flush` / `poll_close` of the writer's carrier
+    fscript: VecDeque<FAns>,
+    cscript: VecDeque<FAns>,
+    /// the inner `poll_close` of the writer's carrier returned `Ready(Ok)`
+    wclosed: bool,
+    /// bytes accepted by the inner `poll_write`; its value at the last successful inner flush/close
+    wire_total: usize,
+    flushed_total: usize,
+    /// a waker was registered by a `Pending` of the writer's / reader's carrier during the current op
+    reg_w: bool,
+    reg_r: bool,
+    waker_w: Option<Waker>,
+    waker_r: Option<Waker>,
 }
 
 impl Shared {
     /// Byte accepted from the writer: append to the wire, tracking frame boundaries.
     fn push_wire(&mut self, b: u8) {
+        self.wire_total += 1;
         if self.segs.back().map_or(true, |s| s.complete) {
             self.segs.push_back(Seg {
                 bytes: VecDeque::new(),
@@ -161,6 +193,45 @@ impl Shared {
         moved
     }
 
+    /// Nothing is in flight between the writer's carrier and the reader's inbox.
+    fn wire_empty(&self) -> bool {
+        self.segs.iter().all(|s| s.bytes.is_empty())
+    }
+
+    fn pend_w(&mut self, cx: &mut Context<'_>) {
+        self.waker_w = Some(cx.waker().clone());
+        self.reg_w = true;
+    }
+
+    fn pend_r(&mut self, cx: &mut Context<'_>) {
+        self.waker_r = Some(cx.waker().clone());
+        self.reg_r = true;
+    }
+
+    /// The scripted stall is over when the next op starts: wake whoever registered.
+    fn next_op(&mut self) {
+        self.reg_w = false;
+        self.reg_r = false;
+        if let Some(w) = self.waker_w.take() {
+            w.wake();
+        }
+        if let Some(w) = self.waker_r.take() {
+            w.wake();
+        }
+    }
+
+    /// What is missing after a successful flush/close, according to the frame bookkeeping.
+    fn missing(&self, wpos: usize) -> String {
+        let mut s = String::new();
+        if self.next_pstart != wpos || !self.hdr.is_empty() {
+            s.push_str(&format!(" short {}/{}", self.next_pstart, wpos));
+        }
+        if self.flushed_total != self.wire_total {
+            s.push_str(" unflushed");
+        }
+        s
+    }
+
     /// Indices (into `segs`) of the frames a tamper operation may address.
     fn tamperable(&self) -> Vec<usize> {
         (0..self.segs.len())
@@ -210,14 +281,20 @@ impl AsyncRead for End {
         let cap = match sh.rscript.pop_front() {
             None => usize::MAX,
             Some(RAns::Chunk(k)) => k,
-            Some(RAns::Pend) => return Poll::Pending,
+            Some(RAns::Pend) => {
+                sh.pend_r(cx);
+                return Poll::Pending;
+            }
             Some(RAns::Eof) => return Poll::Ready(Ok(0)),
             Some(RAns::Err) => return Poll::Ready(Err(io::ErrorKind::ConnectionReset.into())),
         };
         if sh.inbox.is_empty() {
-            return match sh.closed {
+            return match sh.closed || (sh.wclosed && sh.wire_empty()) {
                 true => Poll::Ready(Ok(0)),
-                false => Poll::Pending,
+                false => {
+                    sh.pend_r(cx);
+                    Poll::Pending
+                }
             };
         }
         let n = buf.len().min(sh.inbox.len()).min(cap);
@@ -231,7 +308,7 @@ impl AsyncRead for End {
 impl AsyncWrite for End {
     fn poll_write(
         self: Pin<&mut Self>,
-        _cx: &mut Context<'_>,
+        cx: &mut Context<'_>,
         buf: &[u8],
     ) -> Poll<io::Result<usize>> {
         let mut sh = self.shared.borrow_mut();
@@ -253,10 +330,16 @@ impl AsyncWrite for End {
         if self.side == Side::B {
             return Poll::Ready(Ok(buf.len()));
         }
+        if sh.wclosed {
+            return Poll::Ready(Err(io::ErrorKind::BrokenPipe.into()));
+        }
         let n = match sh.wscript.pop_front() {
             None => buf.len(),
             Some(WAns::Acc(k)) => k.min(buf.len()),
-            Some(WAns::Pend) => return Poll::Pending,
+            Some(WAns::Pend) => {
+                sh.pend_w(cx);
+                return Poll::Pending;
+            }
             Some(WAns::Zero) => return Poll::Ready(Ok(0)),
             Some(WAns::Err) => return Poll::Ready(Err(io::ErrorKind::BrokenPipe.into())),
         };
@@ -266,12 +349,41 @@ impl AsyncWrite for End {
         Poll::Ready(Ok(n))
     }
 
-    fn poll_flush(self: Pin<&mut Self>, _cx: &mut Context<'_>) -> Poll<io::Result<()>> {
-        Poll::Ready(Ok(()))
+    fn poll_flush(self: Pin<&mut Self>, cx: &mut Context<'_>) -> Poll<io::Result<()>> {
+        let mut sh = self.shared.borrow_mut();
+        if !sh.scripted || self.side == Side::B {
+            return Poll::Ready(Ok(()));
+        }
+        match sh.fscript.pop_front() {
+            None => {
+                sh.flushed_total = sh.wire_total;
+                Poll::Ready(Ok(()))
+            }
+            Some(FAns::Pend) => {
+                sh.pend_w(cx);
+                Poll::Pending
+            }
+            Some(FAns::Err) => Poll::Ready(Err(io::ErrorKind::BrokenPipe.into())),
+        }
     }
 
-    fn poll_close(self: Pin<&mut Self>, _cx: &mut Context<'_>) -> Poll<io::Result<()>> {
-        Poll::Ready(Ok(()))
+    fn poll_close(self: Pin<&mut Self>, cx: &mut Context<'_>) -> Poll<io::Result<()>> {
+        let mut sh = self.shared.borrow_mut();
+        if !sh.scripted || self.side == Side::B {
+            return Poll::Ready(Ok(()));
+        }
+        match sh.cscript.pop_front() {
+            None => {
+                sh.flushed_total = sh.wire_total;
+                sh.wclosed = true;
+                Poll::Ready(Ok(()))
+            }
+            Some(FAns::Pend) => {
+                sh.pend_w(cx);
+                Poll::Pending
+            }
+            Some(FAns::Err) => Poll::Ready(Err(io::ErrorKind::BrokenPipe.into())),
+        }
     }
 }
 
@@ -282,6 +394,7 @@ struct Pair {
     wpos: usize,
     rpos: usize,
     write_fused: bool,
+    write_closed: bool,
 }
 
 pub struct NoiseBox {
@@ -353,6 +466,7 @@ impl NoiseBox {
             wpos: 0,
             rpos: 0,
             write_fused: false,
+            write_closed: false,
         });
         Ok(())
     }
@@ -384,6 +498,11 @@ impl VerifBox for NoiseBox {
         let p = self.pair.as_mut().expect("pair");
         let waker = futures::task::noop_waker();
         let mut cx = Context::from_waker(&waker);
+        p.shared.borrow_mut().next_op();
+        let pend_w = |p: &Pair| match p.shared.borrow().reg_w {
+            true => "pending".to_string(),
+            false => "pending nowake".to_string(),
+        };
         match t.as_slice() {
             ["write", n] => {
                 let Some(n) = num(n) else { return "bad-op".into() };
@@ -393,9 +512,12 @@ impl VerifBox for NoiseBox {
                 if p.write_fused {
                     return "fused".into();
                 }
+                if p.write_closed {
+                    return "closed".into();
+                }
                 let data: Vec<u8> = (p.wpos..p.wpos + n).map(pat).collect();
                 match Pin::new(&mut p.a).poll_write(&mut cx, &data) {
-                    Poll::Pending => "pending".into(),
+                    Poll::Pending => pend_w(p),
                     Poll::Ready(Ok(k)) => {
                         p.wpos += k;
                         format!("ok {k}")
@@ -410,9 +532,32 @@ impl VerifBox for NoiseBox {
                 if p.write_fused {
                     return "fused".into();
                 }
+                if p.write_closed {
+                    return "closed".into();
+                }
                 match Pin::new(&mut p.a).poll_flush(&mut cx) {
-                    Poll::Pending => "pending".into(),
-                    Poll::Ready(Ok(())) => "ok".into(),
+                    Poll::Pending => pend_w(p),
+                    Poll::Ready(Ok(())) => format!("ok{}", p.shared.borrow().missing(p.wpos)),
+                    Poll::Ready(Err(e)) => {
+                        p.write_fused = true;
+                        format!("err {}", class(&e))
+                    }
+                }
+            }
+            ["close"] => {
+                if p.write_fused {
+                    return "fused".into();
+                }
+                if p.write_closed {
+                    return "closed".into();
+                }
+                match Pin::new(&mut p.a).poll_close(&mut cx) {
+                    Poll::Pending => pend_w(p),
+                    Poll::Ready(Ok(())) => {
+                        p.write_closed = true;
+                        let sh = p.shared.borrow();
+                        format!("ok{}{}", sh.missing(p.wpos), if sh.wclosed { "" } else { " open" })
+                    }
                     Poll::Ready(Err(e)) => {
                         p.write_fused = true;
                         format!("err {}", class(&e))
@@ -426,7 +571,10 @@ impl VerifBox for NoiseBox {
                 }
                 let mut buf = vec![0xEEu8; k];
                 match Pin::new(&mut p.b).poll_read(&mut cx, &mut buf) {
-                    Poll::Pending => "pending".into(),
+                    Poll::Pending => match p.shared.borrow().reg_r {
+                        true => "pending".into(),
+                        false => "pending nowake".into(),
+                    },
                     Poll::Ready(Ok(n)) => {
                         if n > k {
                             return format!("ok {n} overrun");
@@ -457,6 +605,8 @@ impl VerifBox for NoiseBox {
                 let mut sh = p.shared.borrow_mut();
                 sh.rscript.clear();
                 sh.wscript.clear();
+                sh.fscript.clear();
+                sh.cscript.clear();
                 "ok".into()
             }
             ["carrier", "close"] => {
@@ -477,6 +627,22 @@ impl VerifBox for NoiseBox {
                     });
                 }
                 p.shared.borrow_mut().rscript.extend(v);
+                "ok".into()
+            }
+            ["carrier", which @ ("fscript" | "cscript"), rest @ ..] => {
+                let mut v = Vec::new();
+                for r in rest {
+                    v.push(match *r {
+                        "p" => FAns::Pend,
+                        "x" => FAns::Err,
+                        _ => return "bad-op".into(),
+                    });
+                }
+                let mut sh = p.shared.borrow_mut();
+                match *which {
+                    "fscript" => sh.fscript.extend(v),
+                    _ => sh.cscript.extend(v),
+                }
                 "ok".into()
             }
             ["carrier", "wscript", rest @ ..] => {
